@@ -35,7 +35,7 @@ ASSUMPTIONS = [
     "outside the oracle (model/implementation tie only): keys whose number has a flag bit (>= 131072), two-value text keys, "
     "range bounds that are missing, NaN/Inf double keys, text with NUL bytes, 32-bit IEEE elements, |d - h| within 2^-40 h of "
     "the tolerance h (the C compares in double arithmetic; the model mirrors it bit for bit), INT64 values beyond 2^53 against real keys",
-    "time/location keys and callback keys are not modelled (harness and driver answer 'unsupported')",
+    "time/location keys are not modelled (harness and driver answer 'unsupported'); callback keys are the three callbacks the harness registers (always, never, INT32 value equals)",
 ]
 TRUSTED_EXTRA = [
     "libm pow(10, scale) correctly rounded (contract of BufrModel.Scale.pow10, as for C08); IEEE double subtraction and comparison",
@@ -195,6 +195,12 @@ def in_effect(nodes, i, d):
 
 def elem_key_match(n, key):
     if n["desc"] != key["desc"]: return False
+    if key.get("cb") is not None:
+        # the harness's callbacks: 0 always, 1 never, 2 the element holds the INT32 value given
+        kind, arg = key["cb"]
+        if kind == 0: return True
+        if kind == 1: return False
+        return n["val"][0] == "i" and n["val"][1] == arg
     vs = key["vals"]
     if not vs: return True
     if n["val"][0] == "none": return False
@@ -256,6 +262,13 @@ def parse_token(t):
 
 def parse_key(tok):
     """-> dict(q, desc, vals) or None"""
+    if tok.startswith("c"):
+        d, _, vs = tok[1:].partition("=")
+        ts = vs.split(",")
+        if not d.isdigit() or len(d) > 6 or len(ts) != 2: return None
+        k, a = parse_token(ts[0]), parse_token(ts[1])
+        if not k or not a or k[0] != "i" or a[0] != "i": return None
+        return {"q": False, "desc": int(d), "vals": [], "cb": (k[1], a[1])}
     q = tok.startswith("q")
     if q: tok = tok[1:]
     d, _, vs = tok.partition("=")
@@ -271,6 +284,7 @@ def parse_key(tok):
 def in_scope(keys):
     for k in keys:
         if k["desc"] >= 0x20000: return False
+        if k.get("cb") is not None and not (0 <= k["cb"][0] <= 2): return False
         if k["q"] and len(k["vals"]) > 1: return False
         if len(k["vals"]) == 2 and any(v[0] == "s" for v in k["vals"]): return False
     return True
@@ -689,6 +703,33 @@ def queries(rng, which, nodes, tier):
         if i + L < count:
             seq2 = [nodes[i + 1 + j] for j in range(L)]
             keysets.append(([key_for(rng, n, rng.choice(["hit", "any"])) for n in seq2], [i, i + 1]))
+    # 2b. callback keys (bufr_set_key_callback) in first, second or later place, on runs of one descriptor and
+    #     elsewhere: a partial match abandoned because the callback says no, with the true match beginning inside it
+    strdescs = {n["desc"] for n in nodes if n["val"][0] == "s"}
+    def cbkey(n, want):
+        if n["desc"] in strdescs:
+            return "%d" % n["desc"]      # the harness types its callback values as numbers: no callback keys on character elements
+        if want == "hit" and n["val"][0] == "i":
+            return "c%d=i2,i%d" % (n["desc"], n["val"][1])
+        if want == "miss" and n["val"][0] == "i":
+            return "c%d=i2,i%d" % (n["desc"], (n["val"][1] + 1) % 2 ** 20)
+        return "c%d=i%d,i0" % (n["desc"], 0 if want in ("hit", "always") else 1)
+    for _ in range(4):
+        if runs:
+            i = rng.choice(runs)
+            L = min(rng.choice([2, 2, 3]), count - i)
+            seq = [nodes[i + j] for j in range(L)]
+            # A, cb(A = value of a later member of the run): fails on the first pairs, true match starts inside
+            last = nodes[min(i + L, count - 1)] if nodes[min(i + L, count - 1)]["desc"] == seq[0]["desc"] else seq[-1]
+            keysets.append((["%d" % seq[0]["desc"]] + [cbkey(last, "hit")], [i, i + 1]))
+            keysets.append((["%d" % n["desc"] for n in seq[:-1]] + [cbkey(seq[-1], rng.choice(["hit", "miss", "never", "always"]))], [i]))
+            keysets.append(([cbkey(seq[0], rng.choice(["hit", "always"]))] + ["%d" % n["desc"] for n in seq[1:]], [i]))
+        p = rng.randrange(0, max(count - 2, 1))
+        L = min(rng.choice([1, 2, 3]), count - p)
+        ks = [key_for(rng, nodes[p + j], rng.choice(["any", "hit"])) for j in range(L)]
+        j = rng.randrange(L)
+        ks[j] = cbkey(nodes[p + j], rng.choice(["hit", "hit", "miss", "never", "always"]))
+        keysets.append((ks, [p]))
     # 3. periodic patterns: A B A B … keys A B A
     for _ in range(2):
         if count < 4: break
